@@ -6,6 +6,7 @@ toolchain go1.23.5
 
 require (
 	github.com/bbva/qed v0.0.0
+	github.com/hashicorp/go-msgpack v0.5.5
 	github.com/hashicorp/raft v1.1.1
 	pgregory.net/rapid v1.3.0
 )
@@ -39,7 +40,6 @@ require (
 	github.com/hashicorp/go-cleanhttp v0.5.0 // indirect
 	github.com/hashicorp/go-hclog v0.9.1 // indirect
 	github.com/hashicorp/go-immutable-radix v1.0.0 // indirect
-	github.com/hashicorp/go-msgpack v0.5.5 // indirect
 	github.com/hashicorp/go-multierror v1.0.0 // indirect
 	github.com/hashicorp/go-retryablehttp v0.5.3 // indirect
 	github.com/hashicorp/go-sockaddr v1.0.0 // indirect
